@@ -211,7 +211,13 @@ def run_schedule(workdir: Path, nproc, nsess, seed, faults=True, timeout=300):
     d = Path(workdir)
     d.mkdir(parents=True, exist_ok=True)
     (d / "seq").write_text("0")
-    lib_path = d / "lib.ukv"
+    # the library is reached through several spellings of its path (real, through a symlinked directory, with a
+    # `..` component): the lock must be the same for all of them
+    (d / "real").mkdir(exist_ok=True)
+    if not (d / "alias").exists():
+        os.symlink(d / "real", d / "alias")
+    lib_path = d / "real" / "lib.ukv"
+    spellings = [d / "real" / "lib.ukv", d / "alias" / "lib.ukv", d / "real" / ".." / "real" / "lib.ukv"]
     ctx = mp.get_context("fork")
     # the library is created by a child so that this process never holds the lock
     p0 = ctx.Process(target=_create, args=(str(lib_path),))
@@ -220,7 +226,7 @@ def run_schedule(workdir: Path, nproc, nsess, seed, faults=True, timeout=300):
     procs = []
     for i in range(nproc):
         buf = -1 if i % 2 == 0 else 100000
-        p = ctx.Process(target=worker, args=(str(d), str(lib_path), f"p{i}", nsess, seed * 1000 + i, buf, barrier, faults))
+        p = ctx.Process(target=worker, args=(str(d), str(spellings[i % 3]), f"p{i}", nsess, seed * 1000 + i, buf, barrier, faults))
         p.start(); procs.append(p)
     t0 = time.time()
     hung = False
